@@ -9,6 +9,9 @@ import PygModel.Eq
 import PygProofs.Lemmas.EqLemmas
 import PygProofs.Lemmas.EqDictLemmas
 import PygProofs.Lemmas.EqSame
+import PygModel.EqR
+import PygProofs.Lemmas.EqRLemmas
+import PygProofs.Lemmas.ResDec
 
 namespace Pyg.Props.C14
 open Pyg Pyg.EqM
@@ -208,5 +211,92 @@ example : eq d1 d2 = true ∧ pyEqV d1 d2 = true := by decide
 -- NaN labels are labels like any other; a string label is not the datetime it spells
 example : eq (.series [.nan] [i 1]) (.series [.nan] [i 1]) = true := by decide
 example : eq (.series [.str "2020-01-01"] [i 1]) (.series [.dt 63713433600000000] [i 1]) = false := by decide
+
+/-! ## "never raises", on a reading of `eq` that CAN raise
+
+`eqR : EVal → EVal → Res Bool` (PygModel/EqR.lean) is the repaired `eq` with the python operations that raise on some
+operands as explicit error outcomes: `min` of an empty list (`minR`), `np.vectorize(eq)` on operands that cannot be
+broadcast together or on a result of size 0 (`veqShape`), unpacking `zip(*items)` of an empty dict (`unzipR`), and — in
+the pinned ndarray branch only — `len()` of a 0-d array (`lenR`).  The guards are the code's own
+(`len(x) == 0 or …`, `x.shape == y.shape and (0 in x.shape or …)`, `if len(x) == 0: return True`). -/
+open Pyg.EqRM
+
+/-- **eq never raises**: for ALL pairs of values — whatever shapes, lengths, nesting — no error branch of `eqR` is
+taken: every raising primitive is reached only on operands its guard has let through. -/
+theorem eqR_never_raises (a b : EVal) : ∃ v, eqR a b = .ok v :=
+  eqNR_total a.norm b.norm
+
+/-- **… and returns what the boolean model returns**, for all values whose cells fit their shape (`EVal.sized`: an
+ndarray has as many cells as its shape says, a Series one per index label, a DataFrame one per index × column label —
+true of every numpy / pandas object) -/
+theorem eqR_eq (a b : EVal) (ha : a.sized = true) (hb : b.sized = true) : eqR a b = .ok (eq a b) :=
+  eqNR_eq a.norm b.norm (norm_sized a ha) (norm_sized b hb)
+
+/-- so every theorem about `eq` above (equivalence, NaN, type-strictness, `Same`) is a theorem about the outcome of
+the raising reading -/
+theorem eqR_true_iff_same (a b : EVal) (ha : a.sized = true) (hb : b.sized = true) :
+    eqR a b = .ok true ↔ eq a b = true := by
+  rw [eqR_eq a b ha hb]
+  constructor
+  · intro h; cases h' : eq a b <;> simp_all
+  · intro h; rw [h]
+
+/-- the hypothesis of `eqR_eq` cannot be dropped: a "Series" with more cells than labels is compared cell by cell by
+the boolean model, while the code (and `eqR`) would never look at cells of an empty-index object — such a value is not
+a pandas object -/
+theorem eqR_eq_needs_sized :
+    ∃ a b : EVal, eqR a b = .ok true ∧ eq a b = false := by
+  refine ⟨.series [] [.cell (.int 1)], .series [] [.cell (.int 2)], by decide, by decide⟩
+
+/-- non-vacuity: an object array holding a dict, an empty list and NaN; shapes (2,2) vs (4,) -/
+example :
+    let x : EVal := .arr [2, 2] [.dict 0 [("b", .cell .nan), ("a", .list [])], .cell (.int 1), .tuple [], .arr [0, 3] []]
+    let y : EVal := .arr [2, 2] [.dict 0 [("a", .list []), ("b", .cell .nan)], .cell (.flt 4), .tuple [], .arr [0, 3] []]
+    x.sized = true ∧ y.sized = true ∧ eqR x y = .ok true ∧
+    eqR x (.arr [4] [.cell (.int 1), .cell (.int 1), .cell (.int 1), .cell (.int 1)]) = .ok false := by
+  decide
+
+/-! ### the pinned ndarray branch DID raise (finding F6c, fixed by 6c2066c)
+
+`eqPinned` has the ndarray branch of the pinned tree: `len(x) == len(y)` instead of a shape test, then `veq` with numpy
+broadcasting.  Each behaviour below was reproduced on the pinned `_eq.py`; the repaired `eqR` returns a boolean on the
+same operands. -/
+
+/-- `eq(np.array(1), np.array(1))` raised `TypeError` (`len()` of a 0-d array); repaired: True -/
+theorem pinned_raises_0d :
+    eqPinned (.arr [] [.cell (.int 1)]) (.arr [] [.cell (.int 1)]) = .error .type ∧
+    eqR (.arr [] [.cell (.int 1)]) (.arr [] [.cell (.int 1)]) = .ok true := by
+  decide
+
+/-- shapes (2,3) and (2,): same `len`, not broadcastable — `ValueError`; repaired: False -/
+theorem pinned_raises_not_broadcastable :
+    let x : EVal := .arr [2, 3] [.cell (.int 1), .cell (.int 2), .cell (.int 3), .cell (.int 1), .cell (.int 2), .cell (.int 3)]
+    let y : EVal := .arr [2] [.cell (.int 1), .cell (.int 2)]
+    eqPinned x y = .error .value ∧ eqR x y = .ok false := by
+  decide
+
+/-- shapes (2,1) and (2,0): broadcast to size 0, `np.vectorize` raises `ValueError`; repaired: False -/
+theorem pinned_raises_vectorize_size0 :
+    let x : EVal := .arr [2, 1] [.cell (.int 1), .cell (.int 2)]
+    let y : EVal := .arr [2, 0] []
+    eqPinned x y = .error .value ∧ eqR x y = .ok false := by
+  decide
+
+/-- and where it did not raise it compared after broadcasting: `[[1,2],[1,2]]` equalled `[1,2]`, empty arrays of shapes
+(0,3) and (0,5) were equal — "arrays are equal only if shape and all cells match" -/
+theorem pinned_broadcasts :
+    let x : EVal := .arr [2, 2] [.cell (.int 1), .cell (.int 2), .cell (.int 1), .cell (.int 2)]
+    let y : EVal := .arr [2] [.cell (.int 1), .cell (.int 2)]
+    eqPinned x y = .ok true ∧ eqR x y = .ok false ∧
+    eqPinned (.arr [0, 3] []) (.arr [0, 5] []) = .ok true ∧ eqR (.arr [0, 3] []) (.arr [0, 5] []) = .ok false := by
+  decide
+
+/-- the guards are what keeps the primitives from raising: each primitive does raise on the operands its guard
+excludes -/
+theorem primitives_raise :
+    minR [] = .error .value ∧ lenR [] = .error .type ∧ veqShape [2, 3] [2] = .error .value ∧
+    veqShape [0, 3] [0, 3] = .error .value ∧ unzipR ([] : List (String × Nat)) = .error .value := by
+  decide
+
 
 end Pyg.Props.C14
